@@ -517,6 +517,10 @@ func TestC18(t *testing.T) {
 }
 
 func dynReplay(dir string, judge func(files map[string]string, d dynCalls) string) string {
+	return dynReplayRes(dir, func(files map[string]string, res *native.Result) string { return judge(files, dynamicCalls(res)) })
+}
+
+func dynReplayRes(dir string, judge func(files map[string]string, res *native.Result) string) string {
 	main, err := os.ReadFile(filepath.Join(dir, "main.go"))
 	if err != nil {
 		return "HARNESS cannot read main.go"
@@ -535,7 +539,7 @@ func dynReplay(dir string, judge func(files map[string]string, d dynCalls) strin
 	if err != nil || m[c.Key] == nil || m[c.Key].BuildErr != "" {
 		return fmt.Sprintf("HARNESS native replay failed: %v", err)
 	}
-	return judge(c.files(), dynamicCalls(m[c.Key]))
+	return judge(c.files(), m[c.Key])
 }
 
 func init() {
